@@ -31,6 +31,14 @@ Theorem C12_no_nil_outcomes : forall i f l outs e,
 Proof. exact no_nil_outcomes. Qed.
 Print Assumptions C12_no_nil_outcomes.
 
+(* every outcome carries the level of the statement that applies to ITS entry point, in its own
+   document (OCI document for Verify / SkipVerify / notation.Verify, blob document for
+   VerifyBlob / notation.VerifyBlob), whatever the other document says under the same name *)
+Theorem C12_outcome_levels : forall i f lv outs e l o,
+  model i = ORet f lv outs e -> sel_level i = Some l -> In (Some o) outs -> oc_level o = Some (name_of l).
+Proof. exact outcome_levels. Qed.
+Print Assumptions C12_outcome_levels.
+
 (* verifier.Verify / VerifyBlob: no error <-> an outcome without error (which carries its
    level); an error returned after policy selection comes with an outcome whose Error is
    that very error *)
